@@ -714,7 +714,8 @@ def case_directed(box, res, i):
 
 def case_session(box, res, i):
     rng = core.case_rng(PROP, i, "session")
-    msgs = gen_maildir(rng, box)
+    # now and then a maildir large enough for the server's tables, heap and number formatting to matter
+    msgs = gen_maildir(rng, box, nmax=rng.choice([6] * 30 + [40, 130, 300]))
     n = len(msgs)
     cmds = [(b"UIDL", [])] + gen_commands(rng, n)
     had_quit = rng.random() < 0.86
